@@ -3,7 +3,7 @@ import json, os
 from vlib import core
 
 THEOREMS = ["Props.C18." + t for t in [
-    "facts_current", "deep_equal_iff_partial", "deep_equal_no_false_negative", "deep_equal_refl", "deep_equal_identical", "deep_equal_nil_safe",
+    "facts_current", "deep_equal_iff_partial", "deep_equal_no_false_negative", "deep_equal_refl", "spec_symmetric", "deep_equal_symm_partial", "deep_equal_identical", "deep_equal_nil_safe",
     "validate_set_iff", "validate_set_write", "write_eq_std",
     "deep_equal_iff_fails_missing_key", "deep_equal_iff_fails_struct_key", "deep_equal_iff_fails_optional_binary",
     "deep_equal_not_symmetric", "validate_set_rejects_distinct"]]
